@@ -30,7 +30,7 @@ template <class A, bool CanResize> struct machine {
         auto se = el, sb = buf; std::sort(se.begin(), se.end()); std::sort(sb.begin(), sb.end());
         vj::value r = vj::value::object();
         r.set("live", true).set("shape", vj::value(shp)).set("dim", (long)nm::dim(a)).set("size", sz).set("elems", vj::value(el))
-         .set("perm", se == sb).set("strides", vj::value(shape_vec(a.strides())));
+         .set("perm", se == sb).set("strides", vj::value(shape_vec(a.strides()))).set("ostrides", vj::value(shape_vec(a.offset_.strides_)));
         return r;
     }
     vj::value proj() {
